@@ -201,6 +201,75 @@ class Check:
         sys.exit(0)
 
 
+# ------------------------------------------------------------------------------- sharded execution
+class Rec:
+    """Recorder with Check's recording interface; filled inside a worker process and merged by the parent."""
+
+    def __init__(self, prop, tier):
+        self.prop = prop
+        self.tier = tier
+        self.calls = []
+        self.evaluations = 0
+        self.coverage = {}
+
+    def violation(self, key, detail, replay_obj=None):
+        n = sum(1 for c in self.calls if c[0] == 'violation' and c[1] == key)
+        if n >= 3:
+            replay_obj = None if n >= 3 else replay_obj
+            self.calls.append(('violation', key, '(further witness omitted)', None))
+            return
+        self.calls.append(('violation', key, detail, replay_obj))
+
+    def inconc(self, what):
+        self.calls.append(('inconc', what))
+
+    def fp(self, x):
+        self.calls.append(('fp', x))
+
+    def sample(self, x):
+        if sum(1 for c in self.calls if c[0] == 'sample') < 2:
+            self.calls.append(('sample', x))
+
+    def cov(self, k, n=1):
+        self.coverage[k] = self.coverage.get(k, 0) + n
+
+    def covmax(self, k, n):
+        self.calls.append(('covmax', k, n))
+
+    def harness_error(self, msg):
+        self.calls.append(('harness_error', msg))
+
+
+def merge(chk, rec):
+    chk.evaluations += rec.evaluations
+    for k, v in rec.coverage.items():
+        chk.cov(k, v)
+    for c in rec.calls:
+        getattr(chk, c[0])(*c[1:])
+
+
+def _shard_entry(args):
+    work, prop, tier, b, indices = args
+    rec = Rec(prop, tier)
+    try:
+        work(rec, b, indices)
+    except Exception:
+        import traceback
+        rec.harness_error('worker failed: ' + traceback.format_exc()[-1500:])
+    return rec
+
+
+def run_sharded(chk, b, n, work, nshards=None):
+    """work(rec, build_dir, indices) generates, executes and judges the cases with the given indices."""
+    import multiprocessing
+    nshards = max(1, min(nshards or NPROC, n))
+    args = [(work, chk.prop, chk.tier, b, list(range(k, n, nshards))) for k in range(nshards)]
+    ctx = multiprocessing.get_context('fork')
+    with ctx.Pool(nshards) as pool:
+        for rec in pool.imap_unordered(_shard_entry, args):
+            merge(chk, rec)
+
+
 # ------------------------------------------------------------------------------- online monitors
 def run_online(chk, exe, nbatches, extra=(), timeout=3600):
     """Run an in-process monitor as nbatches parallel processes; aggregate its JSON lines."""
